@@ -81,6 +81,8 @@ type gtxStep struct {
 	StopOnErr bool        `json:"stop_on_err,omitempty"`
 	Action    string      `json:"action,omitempty"`
 	Params    interface{} `json:"params,omitempty"`
+	Isolation int         `json:"isolation,omitempty"`
+	ReadOnly  bool        `json:"read_only,omitempty"`
 }
 
 type ctxObs struct {
